@@ -51,6 +51,12 @@ var cheapMuts = []powMut{
 	}},
 	{"gas-limit/beyond-bound", func(h, p *ethtypes.Header) { h.GasLimit = p.GasLimit + p.GasLimit/1024 }},
 	{"time=parent", func(h, p *ethtypes.Header) { h.Time = p.Time }},
+	// slow blocks: the difficulty rule takes its clamped branch for them (the recorded difficulty no longer fits, and the seal
+	// covers the time anyway); judging them must not disturb the judgement of the headers that follow
+	{"time=parent+900s", func(h, p *ethtypes.Header) { h.Time = p.Time + 900 }},
+	{"time=parent+909s", func(h, p *ethtypes.Header) { h.Time = p.Time + 909 }},
+	{"time=parent+1000s", func(h, p *ethtypes.Header) { h.Time = p.Time + 1000 }},
+	{"time=parent+100000s", func(h, p *ethtypes.Header) { h.Time = p.Time + 100000 }},
 	{"extra/33-bytes", func(h, _ *ethtypes.Header) {
 		h.Extra = append(append([]byte{}, h.Extra...), make([]byte, 33-len(h.Extra))...)
 	}},
@@ -113,7 +119,7 @@ func powCases(e *env) {
 	}
 	ck := e.n.App.XIBCKeeper.ClientKeeper
 	ctx, _ := e.n.Ctx().CacheContext()
-	ctx = ctx.WithBlockTime(time.Unix(int64(hs[len(hs)-1].Time)+100, 0)).WithEventManager(sdk.NewEventManager())
+	ctx = ctx.WithBlockTime(time.Unix(int64(hs[len(hs)-1].Time)+5000, 0)).WithEventManager(sdk.NewEventManager())
 	g := hs[start]
 	cs := &ethtypes.ClientState{Header: cloneHdr(g), ChainId: 1, ContractAddress: make([]byte, 20), TrustingPeriod: 1000000000, BlockDelay: 0}
 	cons := &ethtypes.ConsensusState{Timestamp: g.Time, Height: g.Height, Root: append([]byte{}, g.Root...)}
